@@ -807,7 +807,19 @@ fn gen_binds(r: &mut Prng, p: &mut Plan, max: usize) {
         }
         if p.eps[to].bind_buf > 0 && !r.chance(1, 10) {
             let answers = (0..(n + 2)).map(|_| match r.below(6) { 0 => Answer::Accept, 1 => Answer::Reject, 2 => Answer::Drop, 3 => Answer::Hold, 4 => Answer::AcceptLater(r.below(3)), _ => Answer::Accept }).collect();
-            p.responders.push(Responder { ep: to, answers, yields: r.below(5), forget_after_reply: r.chance(1, 4) });
+            if r.chance(1, 3) {
+                // a pool of one-shot workers, all waiting in next_bind_request at the same time
+                let answers: Vec<Answer> = answers;
+                for k in 0..(n + r.below(2)).max(2) {
+                    let a = match answers.get(k).cloned().unwrap_or(Answer::Accept) {
+                        Answer::AcceptLater(_) => Answer::Accept,
+                        a => a,
+                    };
+                    p.responders.push(Responder { ep: to, answers: vec![a], yields: r.below(12), forget_after_reply: r.chance(1, 4), oneshot: true });
+                }
+            } else {
+                p.responders.push(Responder { ep: to, answers, yields: r.below(5), forget_after_reply: r.chance(1, 4), oneshot: false });
+            }
         } else if p.eps[to].bind_buf > 0 {
             // no responder at all: keep the requests within the buffer so the peer's task is not blocked
             let cap = p.eps[to].bind_buf;
@@ -895,7 +907,7 @@ fn gen_c15_bind_after_abort(r: &mut Prng, _i: u64, _t: Tier) -> Plan {
         1 => Answer::Reject,
         _ => Answer::Accept,
     };
-    p.responders.push(Responder { ep: 1, answers: vec![answer], yields: 60 + r.below(200), forget_after_reply: r.chance(1, 4) });
+    p.responders.push(Responder { ep: 1, answers: vec![answer], yields: 60 + r.below(200), forget_after_reply: r.chance(1, 4), oneshot: false });
     if r.chance(1, 2) {
         let mut b = gen_stream(r, &CLEAN);
         b.opener = 1;
@@ -1954,7 +1966,7 @@ fn gen_c16_busy(r: &mut Prng) -> C16Plan {
     let i_ms = lat * *r.pick(&[40u64, 60, 100]);
     let t_req = 2 * i_ms;
     let backlog = (t_req / lat) as usize * (5 + r.below(6)) + r.below(20);
-    C16Plan { interval_ms: i_ms, timeout_ms: t_req, delays: vec![], tail: Some(0), link: LinkCfg { window: 1 + r.below(2), latency_ms: lat, drop_after_close: false, ws_client: r.below(2) as u8, bp_flush: r.chance(1, 2) }, weights: gen_weights(r), stuck_sink: false, start_delay_ms: if r.chance(1, 4) { i_ms / 2 + 1 } else { 0 }, timeout_first: r.chance(1, 4), replaced_interval_ms: 0, flood_connects: 0, zero_via_from_secs: false, peer_pings_ms: 0, backlog }
+    C16Plan { interval_ms: i_ms, timeout_ms: t_req, delays: vec![], tail: Some(0), link: LinkCfg { window: 1 + r.below(2), latency_ms: lat, drop_after_close: false, ws_client: r.below(2) as u8, bp_flush: r.chance(1, 2) }, weights: gen_weights(r), stuck_sink: false, start_delay_ms: if r.chance(1, 4) { i_ms / 2 + 1 } else { 0 }, timeout_first: r.chance(1, 4), replaced_interval_ms: 0, flood_connects: 0, zero_via_from_secs: false, peer_pings_ms: 0, backlog, drop_then_stall_ms: 0 }
 }
 impl Family for C16Family {
     fn name(&self) -> &'static str {
@@ -2007,7 +2019,22 @@ impl Family for C16Family {
             }
         }
         let stuck_sink = r.chance(1, 3);
-        let plan = C16Plan { interval_ms: i_ms, timeout_ms: t_req, delays, tail, link: LinkCfg { window: if stuck_sink { 1 + r.below(2) } else { 1 << 20 }, latency_ms: 0, drop_after_close: r.chance(1, 2), ws_client: r.below(2) as u8, bp_flush: r.chance(1, 2) }, weights: gen_weights(r), stuck_sink, start_delay_ms: if r.chance(1, 4) { *r.pick(&[1u64, i_ms / 2 + 1, 2 * t_req.max(i_ms) + 1]) } else { 0 }, timeout_first: r.chance(1, 4), replaced_interval_ms: if r.chance(1, 5) { *r.pick(&[100u64, 4000, 30_000, 100_000]) } else { 0 }, flood_connects: if r.chance(1, 5) { *r.pick(&[1usize, 5, 6, 9]) } else { 0 }, zero_via_from_secs: r.chance(1, 3), peer_pings_ms: if r.chance(1, 4) { (i_ms / *r.pick(&[1u64, 2, 3])).max(1) } else { 0 }, backlog: 0 };
+        let plan = C16Plan { interval_ms: i_ms, timeout_ms: t_req, delays, tail, link: LinkCfg { window: if stuck_sink { 1 + r.below(2) } else { 1 << 20 }, latency_ms: 0, drop_after_close: r.chance(1, 2), ws_client: r.below(2) as u8, bp_flush: r.chance(1, 2) }, weights: gen_weights(r), stuck_sink, start_delay_ms: if r.chance(1, 4) { *r.pick(&[1u64, i_ms / 2 + 1, 2 * t_req.max(i_ms) + 1]) } else { 0 }, timeout_first: r.chance(1, 4), replaced_interval_ms: if r.chance(1, 5) { *r.pick(&[100u64, 4000, 30_000, 100_000]) } else { 0 }, flood_connects: if r.chance(1, 5) { *r.pick(&[1usize, 5, 6, 9]) } else { 0 }, zero_via_from_secs: r.chance(1, 3), peer_pings_ms: if r.chance(1, 4) { (i_ms / *r.pick(&[1u64, 2, 3])).max(1) } else { 0 }, backlog: 0, drop_then_stall_ms: 0 };
+        if !self.busy && r.chance(1, 16) {
+            // keepalive disabled with a timeout value still set (what `--keepalive 0` gives), the
+            // application lets go with a backlog queued and the live peer takes nothing for a while
+            let lat = *r.pick(&[5u64, 10]);
+            let t_req = *r.pick(&[500u64, 1000, 2000]);
+            let mut p = gen_c16_busy(r);
+            p.interval_ms = 0;
+            p.timeout_ms = t_req;
+            p.link.latency_ms = lat;
+            p.backlog = 20 + r.below(120);
+            p.drop_then_stall_ms = t_req * (2 + r.below(3) as u64) + r.below(500) as u64;
+            p.start_delay_ms = 0;
+            p.zero_via_from_secs = r.chance(1, 3);
+            return (serde_json::to_value(p).expect("plan"), seed);
+        }
         if self.busy {
             return (serde_json::to_value(gen_c16_busy(r)).expect("plan"), seed);
         }
